@@ -238,9 +238,17 @@ def execute(sc):
                 if cs.get('cancel_iters') is not None:
                     # cancel this caller a given number of loop iterations after it was started
                     loop.call_soon(hop, cs['cancel_iters'], cs['i'])
+            def later(k, cs):
+                if k <= 0:
+                    start(cs)
+                else:
+                    loop.call_soon(later, k - 1, cs)
             sched = []
             for cs in mine:
-                sched.append((cs['at'], start, (cs,)))
+                if cs.get('start_iters'):
+                    sched.append((cs['at'], later, (cs['start_iters'], cs)))
+                else:
+                    sched.append((cs['at'], start, (cs,)))
             for cs in mine:
                 if cs.get('cancel_at') is not None:
                     sched.append((cs['cancel_at'], do_cancel, (cs['i'],)))
